@@ -409,6 +409,10 @@ def main(tier):
             chk.count(counts[1], outcome="read-error")
             chk.nontrivial_n += counts[1]
             for kind, fn, loc in sorted(set(sites)):
+                if kind == "double-return":
+                    chk.violation({"op": "eval-double-return", "detail": fn, "spec": list(spec)},
+                                  "error containment: %s (texts of length %d)" % (fn, spec[0]))
+                    continue
                 chk.violation({"op": "asan-reader:" + fn, "kind": kind, "site": loc, "spec": list(spec)},
                               "AddressSanitizer %s in %s (%s) while reading texts of length %d" % (kind, fn, loc, spec[0]))
             if chk.out_of_time():
